@@ -131,7 +131,7 @@ Proof.
   destruct (target_of it) as [name|]; [|apply IH].
   destruct (negb (has_record m name 1) || negb (has_record m name 28)); [|apply IH].
   unfold rd at 1, reader_v1 at 1. cbn [rd_rr].
-  destruct (for_each_rr_v1 b st name loc _ wrs_empty) as [w e]. cbn [bind]. apply IH.
+  destruct (for_each_rr_v1 b st (lower_bytes name) loc _ wrs_empty) as [w e]. cbn [bind]. apply IH.
 Qed.
 
 Lemma serve_sections_v1_ok : forall q ecs loc auth zc an rcode c,
